@@ -19,6 +19,7 @@ mod c11;
 mod c12;
 mod c13;
 mod c14;
+mod c15;
 mod c16;
 mod c17;
 mod c18;
@@ -47,6 +48,10 @@ fn main() {
     if args.len() < 2 {
         eprintln!("usage: vharness <ID> --tier quick|thorough [--seed N] [--print-findings] [--replay file]");
         std::process::exit(2);
+    }
+    if args[1] == "--c15-worker" {
+        machine::install_panic_hook();
+        std::process::exit(c15::worker_main(&args[2..]));
     }
     let id = args[1].to_uppercase();
     let mut tier = std::env::var("VERIF_TIER").unwrap_or_else(|_| "quick".to_string());
@@ -166,6 +171,10 @@ fn main() {
         "C14" => {
             c14::run(&rep);
             (c14::RULE, false, vec![A_CLI, "the driver's pre-run checks (undefined labels, code label 'start') are replicated in process and the binary is sampled for every mutation class", "constant ranges are the documented ones: signed byte -128..255, signed word -32768..65535, unsigned byte 0..255, unsigned word 0..65535"])
+        }
+        "C15" => {
+            c15::run(&rep);
+            (c15::RULE, false, vec![A_CLI, "liveness is monitored in bounded form: output cap (16-64 MiB) and a generous watchdog (40-300 s); a watchdog alone is inconclusive", "time/memory proportionality is reported as timings at four doubling sizes; only a crash, a panic or unbounded output is judged"])
         }
         "C06" => {
             c06::run(&rep);
